@@ -26,7 +26,9 @@ theorem unknown_endpoint_dispatch (w : World) (sc : Scenario)
     (serve w sc).dispatch = if sc.conf.unknownHandler then .unknown else .none := by
   unfold serve
   simp only [h]
-  split <;> simp_all
+  by_cases hu : sc.conf.unknownHandler = true
+  · simp [hu, forwardObs]
+  · simp [hu]
 
 /-- A service handler is invoked only for a request that passed validation. -/
 theorem svc_dispatch_only_if_valid (w : World) (sc : Scenario) (h : (serve w sc).dispatch = .svc) :
